@@ -10,8 +10,6 @@ line, re-added under the new group name) followed by an old-only cell (the devic
 namespace NA.F1
 open NA.Acl (Range)
 
-def cellOld : MCell → Bool | .ins _ => false | _ => true
-def cellNew : MCell → Bool | .del _ => false | _ => true
 def cellA : MCell → Option Nat | .ins _ => none | .del a => some a | .keep a _ => some a
 def cellB : MCell → Option Nat | .ins b => some b | .del _ => none | .keep _ b => some b
 
